@@ -9,11 +9,11 @@ OBLIGATIONS = [
 ]
 for nb, nc, span, tiers in ((2, 1, 3, ("quick", "thorough")), (4, 3, 5, ("thorough",))):
     OBLIGATIONS.append(dict(name="C17.a Range: %d bridges, %d claims over %d blocks: same first block, exactly the events of the kept blocks in order, other fields copied" % (nb, nc, span + 1),
-                            harness=T + "ZZVerif_C17_Range", params={"NB": nb, "NC": nc, "SPAN": span}, tiers=tiers, reach=["end"],
+                            harness=T + "ZZVerif_C17_Range", params={"NB": nb, "NC": nc, "SPAN": span, "BMASK": 0, "CMASK": 0}, tiers=tiers, reach=["end"],
                             bounds="block numbers of the events arbitrary (ordered) in the range, any first block < 2^40, any cut point"))
 for nb, nc, span, tiers in ((2, 1, 2, ("quick", "thorough")), (3, 1, 3, ("thorough",)), (2, 2, 3, ("thorough",))):
     OBLIGATIONS.append(dict(name="C17.b limitCertSize: %d bridges, %d claims over %d blocks: fits or single block; maximal; first block kept; events = kept blocks" % (nb, nc, span + 1),
-                            harness=F + "ZZVerif_C17_LimitCertSize", params={"NB": nb, "NC": nc, "SPAN": span}, tiers=tiers, reach=["cut"], time_limit_s=3000,
+                            harness=F + "ZZVerif_C17_LimitCertSize", params={"NB": nb, "NC": nc, "SPAN": span, "BMASK": 0, "CMASK": 0}, tiers=tiers, reach=["cut"], time_limit_s=3000,
                             bounds="all size limits (uint32), both certificate types, event block numbers arbitrary (ordered), metadata lengths 1000*(i+1) / 700*(i+1) bytes"))
 for bm, cm, span, tiers in ((0b0000010010, 0b1010000100, 9, ("quick", "thorough")), (0b00101, 0b11010, 4, ("quick", "thorough")),
                             (0b100000000001, 0b011111111110, 11, ("thorough",)), (0b1111, 0b0000, 3, ("thorough",)), (0b000011, 0b111100, 5, ("thorough",))):
@@ -23,7 +23,7 @@ for bm, cm, span, tiers in ((0b0000010010, 0b1010000100, 9, ("quick", "thorough"
                             bounds="all size limits (uint32), both certificate types; metadata lengths 1000*(i+1) / 700*(i+1) bytes"))
 for nb, nc, span, tiers in ((2, 1, 2, ("quick", "thorough")), (3, 2, 4, ("thorough",))):
     OBLIGATIONS.append(dict(name="C17.c last-L2-block limiter: %d bridges, %d claims over %d blocks: ends at min(ToBlock, max) or refuses in the documented cases; retry and non-retry" % (nb, nc, span + 1),
-                            harness=F + "ZZVerif_C17_MaxL2Block", params={"NB": nb, "NC": nc, "SPAN": span}, tiers=tiers, reach=["cut"], time_limit_s=3000,
+                            harness=F + "ZZVerif_C17_MaxL2Block", params={"NB": nb, "NC": nc, "SPAN": span, "BMASK": 0, "CMASK": 0}, tiers=tiers, reach=["cut"], time_limit_s=3000,
                             bounds="all last-block limits (uint64), retry or not, both option flags, event block numbers arbitrary (ordered)"))
 ASSUMPTIONS = ["ranges are well-formed (From <= To); events are ordered by block as the bridge syncer returns them",
                "metadata lengths are concrete per obligation (slice lengths are concrete in the encoder)"]
